@@ -248,6 +248,9 @@ func streamMergeScenario(r *R) {
 			s.BlockAt = r.Choose(n+1, "block-at")
 			blocks = true
 		}
+		if s.BlockAt < 0 && r.Choose(4, "ignore-ctx") == 3 {
+			s.IgnoreCtx = true // an input that does not react to cancellation (but does end by itself)
+		}
 		srcs[i] = s
 		ins[i] = s
 		total += n
@@ -342,6 +345,21 @@ func streamMergeScenario(r *R) {
 					return
 				}
 				r.Probe("stream-merge-error")
+				// the first error is reported as soon as it exists, not when the other inputs get round to ending
+				firstAt := int64(-1)
+				for _, s := range srcs {
+					if s.Err != nil && s.EndSeq != 0 && (firstAt < 0 || s.EndAt < firstAt) {
+						firstAt = s.EndAt
+					}
+				}
+				due := c.InvAt
+				if firstAt > due {
+					due = firstAt
+				}
+				if c.RetAt > due {
+					r.Violate("C12", "stream-merge/error-reported-late", "an input failed at t=%v and Next was invoked at t=%v, but the error was only reported at t=%v (it waited for other inputs)", time.Duration(firstAt), time.Duration(c.InvAt), time.Duration(c.RetAt))
+					return
+				}
 			}
 			break
 		}
@@ -381,6 +399,26 @@ func streamMergeScenario(r *R) {
 	}
 	_ = terminal
 	if closedOut {
+		// "finish without needing further input": once Close has been invoked an input goroutine may
+		// at most have one more Next under way (it can have been about to call it), never a series
+		var closeInv uint64
+		for _, c := range cs.All {
+			if c.Kind == "Close" {
+				closeInv = c.Inv
+			}
+		}
+		for i, s := range srcs {
+			later := 0
+			for _, q := range s.NextInv {
+				if q > closeInv {
+					later++
+				}
+			}
+			if later > 1 {
+				r.Violate("C12", "stream-merge/input-used-after-close", "input %d was asked for %d further items after the merged stream's Close had been invoked", i, later)
+				return
+			}
+		}
 		if lt := LibraryTasks(); len(lt) > 0 {
 			r.Violate("C12", "stream-merge/goroutines-left-after-close", "the output was closed, nothing can run any more, but goroutines started by Merge are still alive (they need further input to finish): %s", taskNames(lt))
 		}
